@@ -31,6 +31,7 @@ re-spellings never reach a rule:
       `d.update({K: V for ...})` become the item assignments / the loops that make them
   N18 emptiness tests in a boolean position: `len(x) == 0` is `not x`; `len(x) > 0`, `len(x) != 0`, `len(x) >= 1` are `x`
   N19 `x = A; if c: x = B` (A a literal or a plain path, c and B do not read x) becomes `if c: x = B else: x = A`
+  N21 `for v in xs: if c: return False` followed by `return True` is `return all(not c for v in xs)` (dually `any`); all([..]) = all(..)
 
 Positions are kept (reports still name the original lines).  The transformation is the same for the tree the rules were
 written against and for the tree under analysis, so it can only remove differences, never create one.
@@ -520,6 +521,17 @@ class _Norm(ast.NodeTransformer):
                 res.append(st)
                 i += 1
             out = res
+        # N21: `for v in xs: if c: return False` + `return True` is `return all(not c for v in xs)` (dually any)
+        if in_function and len(out) >= 2 and isinstance(out[-1], ast.Return) and _bool_const(out[-1].value) is not None and isinstance(out[-2], ast.For) \
+                and not out[-2].orelse and len(out[-2].body) == 1 and isinstance(out[-2].body[0], ast.If) and not out[-2].body[0].orelse \
+                and len(out[-2].body[0].body) == 1 and isinstance(out[-2].body[0].body[0], ast.Return) \
+                and _bool_const(out[-2].body[0].body[0].value) is (not _bool_const(out[-1].value)):
+            lp, final = out[-2], _bool_const(out[-1].value)
+            c = lp.body[0].test
+            elt = self.visit(_negate(c)) if final else c
+            gen = ast.GeneratorExp(elt=elt, generators=[ast.comprehension(target=lp.target, iter=lp.iter, ifs=[], is_async=0)])
+            call = ast.Call(func=ast.Name(id="all" if final else "any", ctx=ast.Load()), args=[gen], keywords=[])
+            out[-2:] = [ast.fix_missing_locations(ast.copy_location(ast.Return(value=ast.copy_location(call, lp)), lp))]
         # N9: boolean return chain
         if in_function:
             while len(out) >= 2 and isinstance(out[-1], ast.Return) and out[-1].value is not None and isinstance(out[-2], ast.If) \
@@ -770,6 +782,10 @@ class _Norm(ast.NodeTransformer):
 
     def visit_Call(self, node):
         self.generic_visit(node)
+        # all([..]) / any([..]) over a list comprehension read the same as over the generator
+        if isinstance(node.func, ast.Name) and node.func.id in ("all", "any") and len(node.args) == 1 and not node.keywords and isinstance(node.args[0], ast.ListComp):
+            lc = node.args[0]
+            node.args = [ast.copy_location(ast.GeneratorExp(elt=lc.elt, generators=lc.generators), lc)]
         if isinstance(node.func, ast.Attribute) and node.func.attr == "get" and len(node.args) == 2 and not node.keywords and _is_none(node.args[1]):
             node.args = node.args[:1]
         if isinstance(node.func, ast.Name) and node.func.id == "isinstance" and len(node.args) == 2 and not node.keywords \
